@@ -134,6 +134,7 @@ def handleCase (f : List String) : Except String Verdict := do
     let mrpm := routePatternMatch (fun _ _ => true) cfg path pattern
     let modelObs := renderObs mo ++ ";rpm=" ++ renderRpm mrpm
     -- correspondence of the structured view with the parser: segsOf (token list) = parseRoute (text)
+    -- (proved for WFPat: C03.parseRoute_patText; kept as a run-time cross-check of the transcription)
     let structOK := match segsOf p, parseRoute pattern with
       | some a, some b => a == b.segs
       | none, none => true
